@@ -23,6 +23,8 @@ pub enum EvKind {
     Deliver { node: usize, port: usize, data: Vec<u8>, event: bool, from: (usize, usize) },
     Timer { node: usize, port: usize, kind: usize, gen: u64 },
     Bmca { node: usize },
+    /// a transmit timestamp (taken when the frame left) that the host reports only now
+    TxTs { node: usize, port: usize, slot: usize, t: u128 },
 }
 
 #[derive(Clone, Debug)]
@@ -69,6 +71,9 @@ pub struct SimNode {
     pub bmca_period_ns: u64,
     /// lose every transmit timestamp with this probability
     pub lose_tx_timestamp: f64,
+    /// the host reports transmit timestamps this much later (0 = right after sending, like the
+    /// daemon); larger than the round trip it puts the report behind the peer's response
+    pub tx_ts_latency_ns: u64,
     /// timestamping error amplitude (ns), uniform +-
     pub ts_error_ns: u64,
 }
@@ -111,6 +116,8 @@ pub struct Sim {
     /// per node: stepsRemoved written into the Announces it transmits (emulates a clock that far
     /// down the tree); None = untouched
     pub announce_steps: Vec<Option<u16>>,
+    /// contexts of transmit timestamps whose report is still on its way (indexed by EvKind::TxTs.slot)
+    held_tx_ctx: Vec<Option<statime::port::TimestampContext>>,
     /// hash of the order of processed events (distinct-interleaving evidence)
     pub order_hash: u64,
 }
@@ -135,6 +142,7 @@ impl Sim {
             events_processed: 0,
             one_step: vec![],
             announce_steps: vec![],
+            held_tx_ctx: vec![],
             order_hash: 0xcbf29ce484222325,
         }
     }
@@ -164,6 +172,7 @@ impl Sim {
             timer_gen: vec![[0; 5]; n],
             bmca_period_ns: period.max(1),
             lose_tx_timestamp: 0.0,
+            tx_ts_latency_ns: 0,
             ts_error_ns: 0,
         };
         let initial = std::mem::take(&mut sn.node.initial_actions);
@@ -289,6 +298,13 @@ impl Sim {
                     let e = self.rng.gen_range(0..=2 * err) as i128 - err as i128;
                     t = (t as i128 + (e << 32)).max(0) as u128;
                 }
+                let latency = self.nodes[node].tx_ts_latency_ns;
+                if latency > 0 {
+                    self.held_tx_ctx.push(Some(ctx));
+                    let slot = self.held_tx_ctx.len() - 1;
+                    self.push(self.now + latency, EvKind::TxTs { node, port, slot, t });
+                    continue;
+                }
                 match self.host_call(node, port, Call::TxTimestamp(ctx, time_from_units(t))) {
                     Some(more) => work = more,
                     None => return,
@@ -362,6 +378,15 @@ impl Sim {
                     Call::GeneralRx(d)
                 };
                 if let Some(acts) = self.host_call(node, port, call) {
+                    self.execute(node, port, acts);
+                }
+            }
+            EvKind::TxTs { node, port, slot, t } => {
+                let Some(ctx) = self.held_tx_ctx.get_mut(slot).and_then(|c| c.take()) else { return true };
+                if !self.nodes[node].alive {
+                    return true;
+                }
+                if let Some(acts) = self.host_call(node, port, Call::TxTimestamp(ctx, time_from_units(t))) {
                     self.execute(node, port, acts);
                 }
             }
